@@ -180,13 +180,13 @@ def handle (o : Op) : Option String :=
   match o.name with
   | "WRAP" => some <| Id.run do
       let some m := o.rat? "m" | return "bad-op"
+      let some h := o.rat? "h" | return "bad-op"
+      let some mode := o.str? "mode" | return "bad-op"
       let some xs := o.vec? 0 | return "bad-op"
       if m ≤ 0 then return "bad-op"
-      match o.str? "h" with
-      | none => return s!"ok | {fmtVec (xs.map (wrap m))}"
-      | some _ =>
-        let some h := o.rat? "h" | return "bad-op"
-        return s!"ok | {fmtVec (xs.map (wrapCentered m h))}"
+      if mode = "2pi" then return s!"ok | {fmtVec (xs.map (wrap m))}"
+      else if mode = "-pi2pi" then return s!"ok | {fmtVec (xs.map (wrapCentered m h))}"
+      else return "err ValueError"
   | "GRAD" => some <| Id.run do
       let some xs := o.vec? 0 | return "bad-op"
       match gradient? xs with
@@ -225,9 +225,10 @@ def handle (o : Op) : Option String :=
       let some m := o.rat? "m" | return "bad-op"
       let some p := o.vec? 0 | return "bad-op"
       if m ≤ 0 then return "bad-op"
-      -- smallest distance of a raw difference from the decision boundary ±m/2
+      -- smallest distance of `dd + m/2` from a multiple of `m` (all float/exact decision boundaries)
       let mg := (diff p).foldl (fun acc d =>
-        let g := absR (absR d - m / 2)
+        let w := wrap m (d + m / 2)
+        let g := if w < m - w then w else m - w
         match acc with | none => some g | some a => some (if g < a then g else a)) (none : Option Rat)
       let mgs := match mg with | none => "none" | some g => fmtRat g
       return s!"ok margin={mgs} | {fmtVec (unwrap m p)}"
